@@ -53,6 +53,24 @@ class C09(ScanCheck):
                     Pk = sc.padd(sc.gmul(h), sc.address(v, Spt, *idx)[0])
                     self.exp[l] = "OK %s %s" % (sc.sc(x).hex(), sc.cp(Pk).hex())
                     cases.append(Case(l, "recover:" + ("primary" if idx == (0, 0) else "one-zero" if 0 in idx else "sub")))
+        # transaction keys with a small-order component: K = r*G + T for each non-trivial torsion point T.  The derivation is
+        # 8*(v*K), so the recovered key must be the one for the torsion-free key r*G (C10); a recoverer that folds the cofactor
+        # into the scalar disagrees with the scanner here
+        for (v, s) in wallets[:3]:
+            Spt = sc.gmul(s)
+            r = sc.rscalar(rng)
+            for T in ed.torsion_points()[1:]:
+                Kpt = sc.padd(sc.gmul(r), T)
+                K = sc.cp(Kpt)
+                Dv = sc.cp(sc.fmul(8, sc.fmul(v, Kpt)))
+                for pos, idx in ((0, (0, 0)), (1, (0, 1)), (128, (2, 0))):
+                    l = "recover %s %s %s %d %d %d" % (sc.sc(v).hex(), sc.sc(s).hex(), K.hex(), pos, idx[0], idx[1])
+                    h = sc.hs(Dv + sc.vi(pos))
+                    m = 0 if idx == (0, 0) else sc.sub_scalar(v, *idx)
+                    x = (h + s + m) % L
+                    Pk = sc.padd(sc.gmul(h), sc.address(v, Spt, *idx)[0])
+                    self.exp[l] = "OK %s %s" % (sc.sc(x).hex(), sc.cp(Pk).hex())
+                    cases.append(Case(l, "recover:torsion-shifted-tx-key"))
         if not q:
             self.evalA_lines_thorough = (cases[0].line,)
         # rejected operands
